@@ -197,8 +197,10 @@ def gen_cases(rng, tier):
         trl = G.MsgGen(meta, rng, p_opt=0.9, max_elems=1)      # trailer fields present: 93/89
 
         def message(g, mt=None, want_trailer=False):
-            for _ in range(20):
+            for _ in range(40):
                 m = g.message(mt, max_wire=1500)
+                if H.count_trap(meta, m[2]):
+                    continue
                 if not want_trailer or m[3]:
                     return m
             return m
@@ -208,7 +210,7 @@ def gen_cases(rng, tier):
             m = message(small, mt)
             cs += mk_cases(px, meta, m[0], H.wire_tokens(meta, *m), [], "none")
         # 2. one token at EVERY position of a message
-        n_every = (60 if thorough else 26) if schema == default else 15
+        n_every = (70 if thorough else 40) if schema == default else 15
         for k in range(n_every):
             m = message(small if k % 3 else gen, None, want_trailer=(k % 2 == 0))
             if k % 2 == 0 and not m[3]:
@@ -221,7 +223,7 @@ def gen_cases(rng, tier):
                     continue
                 cs += mk_cases(px, meta, m[0], toks, [(i, u)], "every", kinds="V" if (i % 4 and i != len(toks)) else "VR")
         # 3. several tokens at random positions; all at the end; all after the last body token
-        n_multi = (400 if thorough else 150) if schema == default else 60
+        n_multi = (500 if thorough else 280) if schema == default else 80
         for k in range(n_multi):
             m = message(gen, None, want_trailer=(k % 3 == 0))
             toks = H.wire_tokens(meta, *m)
